@@ -365,6 +365,54 @@ fn gff_roundtrip(r: &GffRec, d: Dialect, cc: &mut CaseCtx) {
     }
 }
 
+
+/// several records through ONE writer object and one reader (state carried from record to record)
+fn gff_list_roundtrip(list: &[GffRec], d: Dialect, cc: &mut CaseCtx) {
+    cc.nontrivial();
+    let dn = d.name();
+    let r = guard(|| {
+        let mut out = vec![];
+        {
+            let mut w = gff::Writer::new(&mut out, d.ty());
+            for r in list {
+                w.write(&to_gff(r)).map_err(|e| e.to_string())?;
+            }
+        }
+        let got = read_gff(&out, d, list.len() + 3);
+        Ok::<(Vec<u8>, Vec<Result<gff::Record, String>>), String>((out, got))
+    });
+    match r {
+        Err(msg) => cc.violation(format!("C13/{}/list/panic", dn), msg),
+        Ok(Err(e)) => cc.violation(format!("C13/{}/writer/error", dn), e),
+        Ok(Ok((bytes, got))) => {
+            cc.outcome(&got.len());
+            let ok = got.len() == list.len()
+                && got.iter().zip(list).all(|(g, w)| {
+                    g.as_ref().map(|g| typed_fields(g) == typed_fields(&to_gff(w)) && attrs_of(g) == attr_model(&w.attrs)).unwrap_or(false)
+                });
+            if !ok {
+                cc.violation(
+                    format!("C13/{}/list/records-differ", dn),
+                    format!("records {:?} written through one writer as {:?} read back as {:?}", list, show(&bytes), got),
+                );
+            }
+        }
+    }
+}
+
+fn gff_list_records(d: Dialect) -> Vec<GffRec> {
+    let p = |k: &str, v: &str| (k.to_string(), v.to_string());
+    let mk = |feature: &str, phase: Option<u8>, attrs: Vec<(String, String)>| GffRec { seqname: "chr1".into(), source: "src".into(), feature: feature.into(), start: 3, end: 9, score: ".".into(), strand: "+".into(), phase, attrs };
+    let v2 = if d == Dialect::GFF3 { "a b" } else { "a_b" };
+    vec![
+        mk("gene", None, vec![p("ID", "gene1")]),
+        mk("bare", Some(0), vec![]),
+        mk("multi", Some(2), vec![p("Note", "x"), p("Note", v2), p("ID", "m")]),
+        mk("bare2", None, vec![]),
+        mk("long", Some(1), vec![p("ID", "a-much-longer-attribute-value"), p("x", "1")]),
+    ]
+}
+
 // ------------------------------------------------------------------ corruptions
 
 #[derive(Clone, Debug, Serialize, Deserialize)]
@@ -373,6 +421,7 @@ enum Corruption {
     Truncate(usize),
     Delete(usize),
     Subst(usize, u8),
+    Insert(usize, u8),
 }
 
 const SUBST: [u8; 8] = [b'\t', b'\n', b'x', b'9', b'#', b'.', b'-', b'3'];
@@ -389,6 +438,11 @@ fn corrupt(base: &[u8], c: &Corruption) -> Vec<u8> {
         Corruption::Subst(i, b) => {
             let mut v = base.to_vec();
             v[*i] = *b;
+            v
+        }
+        Corruption::Insert(i, b) => {
+            let mut v = base.to_vec();
+            v.insert(*i, *b);
             v
         }
     }
@@ -451,10 +505,15 @@ fn classify_gff(line: &str) -> LineClass {
     if f[3].parse::<u64>().is_err() || f[4].parse::<u64>().is_err() {
         return LineClass::Malformed;
     }
-    if !matches!(f[7], "." | "0" | "1" | "2") {
+    // the phase is '.' or a number 0..=2 (compared by value: "01" is the number 1)
+    let phase_ok = f[7] == "." || f[7].parse::<u8>().map(|p| p < 3).unwrap_or(false);
+    if !phase_ok {
         return LineClass::Malformed;
     }
     let mut typed: Vec<String> = f[..8].iter().map(|s| s.to_string()).collect();
+    if f[7] != "." {
+        typed[7] = f[7].parse::<u8>().unwrap().to_string();
+    }
     // numbers compare by value ("+3" and "03" parse; compare canonical forms)
     typed[3] = f[3].parse::<u64>().unwrap().to_string();
     typed[4] = f[4].parse::<u64>().unwrap().to_string();
@@ -559,7 +618,7 @@ fn corruption_check(base_name: &str, base: &[u8], c: &Corruption, cc: &mut CaseC
                     if !found {
                         // which malformed line could it have come from?
                         let surplus = lines.iter().any(|l| !l.starts_with('#') && l.split('\t').count() > 9);
-                        let bad_phase = lines.iter().any(|l| { let f: Vec<&str> = l.split('\t').collect(); f.len() == 9 && !matches!(f[7], "." | "0" | "1" | "2") && f[7].parse::<u8>().is_ok() });
+                        let bad_phase = lines.iter().any(|l| { let f: Vec<&str> = l.split('\t').collect(); f.len() == 9 && f[7] != "." && !f[7].parse::<u8>().map(|p| p < 3).unwrap_or(false) });
                         let sym = if !is_bed && surplus {
                             "surplus-column-accepted"
                         } else if !is_bed && bad_phase {
@@ -621,6 +680,11 @@ fn malformed_lines() -> Vec<(&'static str, &'static str)> {
         ("gff", "chr1\ts\tgene\t1\t5\t.\t+\t3\tID=a"),
         ("gff", "chr1\ts\tgene\t1\t5\t.\t+\t255\tID=a"),
         ("gff", "chr1\ts\tgene\t1\t5\t.\t+\tx\tID=a"),
+        ("gff", "chr1\ts\tgene\t1\t5\t.\t+\t09\tID=a"),
+        ("gff", "chr1\ts\tgene\t1\t5\t.\t+\t2x\tID=a"),
+        ("gff", "chr1\ts\tgene\t1\t5\t.\t+\t.7\tID=a"),
+        ("gff", "chr1\ts\tgene\t1\t5\t.\t+\t1 \tID=a"),
+        ("gff", "chr1\ts\tgene\t1\t5\t.\t+\t-1\tID=a"),
         ("gff", "chr1\ts\tgene\t1\t5\t.\t+\t\tID=a"),
         ("gff", "chr1\ts\tgene\t1\t5\t.\t+\t0"),
         ("gff", "chr1\ts\tgene\t1\t5\t.\t+\t0\tID=a\textra"),
@@ -669,6 +733,28 @@ fn gff_records(d: Dialect) -> Vec<GffRec> {
 
 fn gff_unit(shard: usize, ctx: &mut Ctx) {
     let mut idx = 0usize;
+    // record lists through one writer: every ordered pair and triple of five records
+    for d in [Dialect::GFF3, Dialect::GFF2, Dialect::GTF2] {
+        let recs = gff_list_records(d);
+        let n = recs.len();
+        let mut lists: Vec<Vec<usize>> = vec![];
+        for a in 0..n {
+            for b in 0..n {
+                lists.push(vec![a, b]);
+                for c in 0..n {
+                    lists.push(vec![a, b, c]);
+                }
+            }
+        }
+        for l in lists {
+            idx += 1;
+            if idx % GFF_SHARDS != shard {
+                continue;
+            }
+            let list: Vec<GffRec> = l.iter().map(|&i| recs[i].clone()).collect();
+            ctx.case(|| json!({"kind": "gff-list", "dialect": d, "records": list}), |cc| gff_list_roundtrip(&list, d, cc));
+        }
+    }
     for d in [Dialect::GFF3, Dialect::GFF2, Dialect::GTF2] {
         for r in gff_records(d) {
             idx += 1;
@@ -726,7 +812,11 @@ fn corruption_unit(shard: usize, ctx: &mut Ctx) {
                 if base[n] != b {
                     cs.push(Corruption::Subst(n, b));
                 }
+                cs.push(Corruption::Insert(n, b));
             }
+        }
+        for b in SUBST {
+            cs.push(Corruption::Insert(base.len(), b));
         }
         for c in cs {
             idx += 1;
@@ -746,7 +836,7 @@ impl Prop for C13Prop {
         "fault_enumeration"
     }
     fn rule(&self) -> &'static str {
-        "BED: every record of a 5x3x8 grid per auxiliary column count k=0..4 as a single-record file, strided pairs and triples with a common k, four comment placements. GFF: three dialects x (score, strand, phase) grid x a family of attribute multimaps (empty, one pair, one key with 2-3 values, two keys interleaved); per record: writer conformance as a multiset of pairs, the reader on EVERY permutation of the written pairs (with and without trailing terminator), and end-to-end. Corruptions: every truncation, every single-byte deletion and every single-byte substitution from {TAB LF x 9 # . - 3} of six written files (3 GFF dialects, BED with 0/2/3 extra columns), judged by an independent line classifier: the Ok items must be, in order, a subsequence of the well-formed lines. 19 explicit malformed lines. Non-trivial: multi-valued or multi-key attributes; BED lists with quotes/empty fields/comments/several records; corruptions that change the classification of a line."
+        "BED: every record of a 5x3x8 grid per auxiliary column count k=0..4 as a single-record file, strided pairs and triples with a common k, four comment placements. GFF: three dialects x (score, strand, phase) grid x a family of attribute multimaps (empty, one pair, one key with 2-3 values, two keys interleaved); per record: writer conformance as a multiset of pairs, the reader on EVERY permutation of the written pairs (with and without trailing terminator), and end-to-end. every ordered pair and triple of five GFF records (with and without attributes) through one writer object. Corruptions: every truncation, every single-byte deletion, substitution and insertion from {TAB LF x 9 # . - 3} of six written files (3 GFF dialects, BED with 0/2/3 extra columns), judged by an independent line classifier: the Ok items must be, in order, a subsequence of the well-formed lines. 24 explicit malformed lines. Non-trivial: multi-valued or multi-key attributes; BED lists with quotes/empty fields/comments/several records; corruptions that change the classification of a line."
     }
     fn assumptions(&self) -> Vec<&'static str> {
         vec![
@@ -786,6 +876,11 @@ impl Prop for C13Prop {
                 let d: Dialect = serde_json::from_value(case["dialect"].clone()).unwrap();
                 let r: GffRec = serde_json::from_value(case["record"].clone()).unwrap();
                 ctx.case(|| case.clone(), |cc| gff_roundtrip(&r, d, cc));
+            }
+            "gff-list" => {
+                let d: Dialect = serde_json::from_value(case["dialect"].clone()).unwrap();
+                let list: Vec<GffRec> = serde_json::from_value(case["records"].clone()).unwrap();
+                ctx.case(|| case.clone(), |cc| gff_list_roundtrip(&list, d, cc));
             }
             "bed" => {
                 let list: Vec<BedRec> = serde_json::from_value(case["records"].clone()).unwrap();
